@@ -71,6 +71,30 @@ RfTinyProof(extra, plusP) ==
   IN  RfAssemble(hb, C, H, << T, D2 >>, bases, rs, << 1, 2 >>, << RfSec(1), RfSec(2) >>, extra,
                  << IF plusP THEN ToBytesBE(Add(T[1], P), 32) ELSE X32(T) >>)
 
+\* "ring key at infinity": digit commitments with ZERO blinding, D_i = js[i] 4^i 10^exp H (js[i] >= 1), make member js[i] of ring i
+\* the point at infinity.  Infinity has the known discrete logarithm 0: R = s G + e * infinity = s G does not depend on the
+\* challenge, so the rings close for ARBITRARY non-zero scalars -- the chain of ring i is simply started at member js[i] with
+\* "nonce" s, and e0 = SHA256(R_0,last || ... || m) is computed directly (Borromean!SignE0); nothing has to be solved for.
+\* Everything else (header, lengths, sign bits, last digit derived from C = sum D_i + min H, i.e. a commitment to
+\* min + scale * sum js[i] 4^i with blinding factor 0) is consistent: only "a ring key must not be infinity" rejects the proof.
+RfInfProof(hb, H, js, extra) ==
+  LET L     == RfLenient(hb)
+      rs    == RpRsizes(L.mant)
+      rings == Len(rs)
+      nch   == RpSum(rs)
+      bases == RpBases(PMul(U64Pow10(L.exp), H), rings, << >>)
+      Ds    == [i \in 1..rings |-> PMul(FromNat(js[i]), bases[i])]
+      C     == PAdd(SumPoints(Ds), PMul(L.minv, H))
+      xs    == IF rings = 1 THEN << >> ELSE [i \in 1..(rings - 1) |-> X32(Ds[i])]
+      signs == IF rings = 1 THEN << >> ELSE [i \in 1..(rings - 1) |-> IF IsSquare(Ds[i][2]) THEN 0 ELSE 1]
+      sb    == IF RpSignBytes(rings) = 0 THEN << >> ELSE [b \in 1..RpSignBytes(rings) |-> RpPackBits(signs, 8 * (b - 1) + 1, 0)]
+      m     == RpMsgHash(C, H, hb, signs, xs, extra)
+      ss    == [p \in 1..nch |-> RfForged(p)]
+      e0    == SignE0(m, RpKeys(Ds, bases, rs), ss, [i \in 1..rings |-> ss[4 * (i - 1) + js[i] + 1]], rs, js, 0, 0, << >>)
+  IN  [ ok |-> e0[1], C |-> C, H |-> H, rs |-> rs, secidx |-> js,
+        soff |-> Len(hb) + Len(sb) + 32 * (rings - 1) + 32, doff |-> Len(hb) + Len(sb),
+        proof |-> hb \o sb \o (IF rings = 1 THEN << >> ELSE Flatten(xs)) \o e0[2] \o Flatten([p \in 1..nch |-> Scalar32(ss[p])]) ]
+
 \* byte surgery on an assembled proof
 RfSetBytes(b, off, x) == SubSeq(b, 1, off) \o x \o SubSeq(b, off + Len(x) + 1, Len(b))     \* overwrite behind offset off
 RfScalarAt(f, p) == FromBytesBE(SubSeq(f.proof, f.soff + 32 * (p - 1) + 1, f.soff + 32 * p))
